@@ -223,11 +223,83 @@ def check_message(acc, g, maxavps):
             acc.violation("message-view-differs", "bytes()/len()/copy()/convert() disagree with dump()", wit)
         if (m + m) != want + want:
             acc.violation("message-view-differs", "__add__ disagrees with dump()", wit)
+    if got == want:
+        mutate_message_and_check(acc, g, m, lmsg, specs, objs, path)
     if specs:
         acc.case(sig)
     else:
         acc.evaluations += 1
     acc.sample({"message": {"path": path, "n_avps": len(specs), "wire": want.hex()[:96]}}, limit=2)
+
+
+def mutate_message_and_check(acc, g, m, lmsg, specs, objs, path):
+    """A message stays 'built through the public API' when it is changed through it: after each container operation the
+    serialisation must again be the reference encoding of the (mirrored) content."""
+    r = g.rng
+    lavps = list(lmsg.avps)
+    objs = list(objs)
+    specs = list(specs)
+    trace = []
+    for _ in range(r.randrange(1, 4)):
+        op = r.choice(["append", "pop", "setitem", "update_avp", "extend"])
+        try:
+            if op == "append":
+                sp = g.any_avp(maxdepth=3)
+                o = sp.build()
+                m.append(o)
+                lavps.append(sp.lavp); objs.append(o); specs.append(sp)
+            elif op == "extend":
+                sps = [g.any_avp(maxdepth=2) for _ in range(r.randrange(1, 3))]
+                os_ = [sp.build() for sp in sps]
+                m.extend(os_)
+                lavps += [sp.lavp for sp in sps]; objs += os_; specs += sps
+            elif op == "pop" and objs:
+                i = r.randrange(len(objs))
+                key = next((k for k, v in m.__dict__.items() if v is objs[i] and k != "_avps"), None)
+                if key is None:
+                    continue
+                m.pop(key)
+                del lavps[i]; del objs[i]; del specs[i]
+            elif op == "setitem" and objs:
+                i = r.randrange(len(objs))
+                sp = g.any_avp(maxdepth=3)
+                o = sp.build()
+                m[i] = o
+                lavps[i] = sp.lavp; objs[i] = o; specs[i] = sp
+            elif op == "update_avp" and objs:
+                # the singular update: a new object of the same dictionary class, same slot, same name; flags and vendor kept
+                cand = [i for i, sp in enumerate(specs) if sp.cls is not None and sp.members is None]
+                if not cand:
+                    continue
+                i = r.choice(cand)
+                key = next((k for k, v in m.__dict__.items() if v is objs[i] and k != "_avps"), None)
+                if key is None:
+                    continue
+                sp = g.avp(specs[i].cls)
+                if sp.members is not None:
+                    continue
+                m.update_avp(key, sp.arg)
+                objs[i] = m.__dict__[key]
+                lavps[i] = sp.lavp; specs[i] = sp
+            else:
+                continue
+        except BaseException as ex:
+            acc.observe("message-mutation-rejected:%s:%s" % (op, type(ex).__name__))
+            return
+        trace.append(op)
+        acc.counters["message_mutations"] += 1
+        want = R.encode(R.LMsg(lmsg.version, lmsg.flags, lmsg.code, lmsg.app_id, lmsg.hbh, lmsg.e2e, lavps))
+        try:
+            got = m.dump()
+        except BaseException as ex:
+            acc.violation("message-dump-raises-after-%s" % op, "dump() raised %r after %s" % (ex, trace), {"trace": trace, "path": path})
+            return
+        if got != want:
+            off = first_diff(got, want)
+            key = "message-length-field" if 1 <= off < 4 else ("message-header" if off < 20 else "message-avps")
+            acc.violation("%s-after-%s" % (key, op), "message built by %s then %s: dump() differs from the reference at offset %d" % (path, trace, off),
+                          {"trace": trace, "path": path, "got": got.hex()[:800], "want": want.hex()[:800]})
+            return
 
 
 def run_batch(b):
@@ -309,7 +381,7 @@ def main(tier, seed):
                            "typed message classes are covered by C09 with the same oracle",
                            "in-domain values the library rejects with an exception are observed, not judged here (C10)"],
                           t0, extra_cov={"classes_covered": len(names) - len(zero), "classes_total": len(names)},
-                          require_counters=("avp_dumps", "header_dumps", "message_dumps", "request_answer_class_dumps", "post_construction_mutations"))
+                          require_counters=("avp_dumps", "header_dumps", "message_dumps", "request_answer_class_dumps", "post_construction_mutations", "message_mutations"))
 
 
 def replay(w):
